@@ -18,9 +18,12 @@ type SeqCfg struct {
 	ValProf  *gen.Profile // values carried by operations
 	MinOps   int
 	MaxOps   int
-	MissRate int      // percent of pointers drawn from the near-miss set
-	Kinds    []string // operation kinds to draw from (repeat to weight)
-	RootOK   bool     // allow "" as path of add/replace/test and from of copy
+	MissRate int // percent of pointers drawn from the near-miss set
+	// NearNames: the near-miss set is made of absent members whose names differ from a present one by letter case,
+	// a trailing blank or the like (gen.NearNamePointers), when there are any.
+	NearNames bool
+	Kinds     []string // operation kinds to draw from (repeat to weight)
+	RootOK    bool     // allow "" as path of add/replace/test and from of copy
 	// ContinueAfterFail: after an inapplicable operation keep generating
 	// against the last good state (operations that would change the outcome
 	// if they were executed).
@@ -71,6 +74,11 @@ func valueAt(e *ref.Evaluator, path string) *jr.Value {
 // GenOp generates one operation against the evaluator's current state.
 func GenOp(r *rand.Rand, e *ref.Evaluator, cfg *SeqCfg) (ref.Op, string) {
 	res, miss := gen.Pointers(e.Root)
+	if cfg.NearNames {
+		if nm := gen.NearNamePointers(e.Root); len(nm) > 0 {
+			miss = nm
+		}
+	}
 	kinds := cfg.Kinds
 	if len(kinds) == 0 {
 		kinds = allKinds
